@@ -374,8 +374,13 @@ def evaluate(ctx, scenarios, model_ok, tag):
                 bad = []
                 if stage < 4 or (flags and not all(flags[:3])):
                     bad.append(('struct', 'header/POINTS/CELLS/CELL_TYPES unreadable or size/type-count/range inconsistent (stage %d flags %r)' % (stage, flags)))
-                if stage in (4, 6) or (flags and not flags[3]):
-                    bad.append(('pd', 'POINT_DATA section: declared %r for %r POINTS, stage %d' % (base['declared']['point_data'], base['declared']['points'], stage)))
+                has_pd = base['declared']['point_data'] is not None
+                if stage == 6 and not has_pd:
+                    bad.append(('struct', 'unread tokens remain after the last section (stage 6)'))
+                if stage == 4 or (stage == 6 and has_pd) or (flags and not flags[3]):
+                    bad.append(('pd', 'POINT_DATA section%s: declared %r for %r POINTS, reader stage %d'
+                                % (' (or later: unread tokens remain)' if stage == 6 else '', base['declared']['point_data'],
+                                   base['declared']['points'], stage)))
                 if stage == 5 or (flags and not flags[4]):
                     bad.append(('cd', 'CELL_DATA section: declared %r for %r CELLS, stage %d' % (base['declared']['cell_data'], base['declared']['cells'], stage)))
                 if not bad and msegs is not None and seg[1] != msegs[2 * j + 1]:
@@ -424,7 +429,12 @@ def search(ctx, reasons):
     c2.failures, c2.counts, c2.cov, c2.samples = [], {}, {}, []
     r = ctx.rng('search')
     scenarios = [gen_scenario(r, clean=(i % 4 != 3)) for i in range(ctx.n(150, 600))]
-    evaluate(c2, scenarios, False, 's')
+    model_ok = not any(x.get('kind') in ('proof', 'translator', 'hygiene') for x in reasons)
+    try:
+        evaluate(c2, scenarios, model_ok, 's')      # with the model: also the round-trip clause (parsed file = supplied dataset)
+    except C.CoqError:
+        c2.failures = []
+        evaluate(c2, scenarios, False, 's')
     known = [f for f in C.load_known_findings() if f['property'] == ID and f['status'] == 'open']
     for fl in c2.failures:
         if fl.get('concrete') and not any(matches_finding(fl, f) for f in known):
@@ -480,9 +490,13 @@ def replay(ctx, path):
         print('no concrete failing input recorded; broken obligations:', rep.get('broken'))
         return 1
     ctx.failures = []
-    evaluate(ctx, [case['scenario']], False, 'r')
+    try:
+        evaluate(ctx, [case['scenario']], True, 'r')
+    except C.CoqError:
+        ctx.failures = []
+        evaluate(ctx, [case['scenario']], False, 'r')
     known = [f for f in C.load_known_findings() if f['property'] == ID and f['status'] == 'open']
-    fresh = [fl for fl in ctx.failures if not any(matches_finding(fl, f) for f in known)]
+    fresh = [fl for fl in ctx.failures if fl.get('concrete') and not any(matches_finding(fl, f) for f in known)]
     for fl in fresh[:5]:
         print('still failing:', fl['what'])
     if not fresh:
